@@ -582,20 +582,39 @@ def _cond_marks(cond, X, v_text):
     return out
 
 
-def _false_implies_unmarked(cond, X, v_text):
-    """cond false  =>  (v not marked in X)  or  (a guard conjunct about v is false)."""
+def _false_implies_unmarked(cond, X, v_text, bounds=None, ev=None):
+    """cond false  =>  (v not marked in X)  or  (v is at or beyond the bound of the loop's range exit)."""
     if isinstance(cond, ast.BoolOp) and isinstance(cond.op, ast.Or):
-        return any(_false_implies_unmarked(d, X, v_text) for d in cond.values)
+        return any(_false_implies_unmarked(d, X, v_text, bounds, ev) for d in cond.values)
     if isinstance(cond, ast.BoolOp) and isinstance(cond.op, ast.And):
-        # not(A and M) = not A or not M : acceptable when the other conjuncts only constrain v's range
-        has = any(_false_implies_unmarked(d, X, v_text) for d in cond.values)
-        others_ok = all(_false_implies_unmarked(d, X, v_text) or _mentions_only(d, v_text) for d in cond.values)
+        # not(A and M) = not A or not M : acceptable when not A sends the next iteration into the range exit,
+        # i.e. A is `v < K` with K at least the range exit's bound (a smaller K leaves v in [K, N) unchecked)
+        has = any(_false_implies_unmarked(d, X, v_text, bounds, ev) for d in cond.values)
+        others_ok = all(_false_implies_unmarked(d, X, v_text, bounds, ev) or _range_conjunct(d, v_text, bounds, ev) for d in cond.values)
         return has and others_ok
     return _cond_marks(cond, X, v_text) == ["pos"] and not isinstance(cond, ast.BoolOp)
 
 
-def _mentions_only(d, v_text):
-    return isinstance(d, ast.Compare) and v_text in norm(d)
+def _range_conjunct(d, v_text, bounds, ev):
+    if not (isinstance(d, ast.Compare) and len(d.ops) == 1) or ev is None or not bounds:
+        return False
+    l, op, r = d.left, d.ops[0], d.comparators[0]
+    K = None
+    if norm(l) == v_text and isinstance(op, ast.Lt):
+        K = ev.ev(r)
+    elif norm(l) == v_text and isinstance(op, ast.LtE):
+        K = ev.ev(r) + Term.const(1)
+    elif norm(r) == v_text and isinstance(op, ast.Gt):
+        K = ev.ev(l)
+    elif norm(r) == v_text and isinstance(op, ast.GtE):
+        K = ev.ev(l) + Term.const(1)
+    if K is None:
+        return False
+    for N in bounds:
+        diff = K - N
+        if diff.is_const() and diff.value() >= 0:
+            return True
+    return False
 
 
 def schema_visited_walk(ctx, fn, cfg, lp, ev):
@@ -656,6 +675,17 @@ def _visited_walk_for(ctx, fn, cfg, lp, ev, c):
                 guard_range = True
             if isinstance(r, ast.Name) and r.id == c and isinstance(op, ast.Gt) and invariant_in_loop(l, loop):
                 guard_range = True
+    range_bounds = []
+    for n in range_tests:
+        r, op = n.test.comparators[0], n.test.ops[0]
+        range_bounds.append(ev.ev(r) + (Term.const(1) if isinstance(op, ast.Gt) else Term.const(0)))
+    for gt in guard_atoms(loop.test):
+        if isinstance(gt, ast.Compare) and len(gt.ops) == 1:
+            l, op, r = gt.left, gt.ops[0], gt.comparators[0]
+            if isinstance(l, ast.Name) and l.id == c and isinstance(op, ast.Lt) and invariant_in_loop(r, loop):
+                range_bounds.append(ev.ev(r))
+            if isinstance(r, ast.Name) and r.id == c and isinstance(op, ast.Gt) and invariant_in_loop(l, loop):
+                range_bounds.append(ev.ev(l))
     if not range_tests and not guard_range:
         return False, "VISITED-WALK", f"cursor `{c}` indexes tables but no range exit (`{c} >= N` leaving the loop) exists"
     rt_ids = {cfg.nid(t) for t in range_tests}
@@ -721,7 +751,7 @@ def _visited_walk_for(ctx, fn, cfg, lp, ev, c):
             for k, st, lab in stmts:
                 if k == "test" and isinstance(st, ast.If):
                     for X in marked_struct:
-                        if lab == "false" and _false_implies_unmarked(st.test, X, vtxt) and st.body \
+                        if lab == "false" and _false_implies_unmarked(st.test, X, vtxt, range_bounds, ev) and st.body \
                                 and isinstance(st.body[-1], (ast.Break, ast.Return, ast.Raise)):
                             fresh = True
         if not fresh:
